@@ -36,7 +36,8 @@ ASSUMPTIONS = c02.ASSUMPTIONS + [
 ]
 REAL_STUB = c02.REAL_STUB
 
-KINDS = ("deleted", "emptied", "truncated", "garbage", "garbage_head")
+KINDS = ("deleted", "emptied", "truncated", "garbage", "garbage_head",
+         "io_error")
 
 
 def budget(tier):
@@ -123,6 +124,18 @@ def run_case(case):
                 if idx in hit:
                     continue
                 full = os.path.join(env.root, table[idx]["path"])
+                if d["kind"] == "io_error":
+                    # a failing system call: open() of that shard returns EIO
+                    # (only visible to readers that open files in Python)
+                    if iface in ("rust", "tfdata") or st["fmt"] == "tfrec":
+                        d = dict(d, kind="deleted")
+                    else:
+                        import errno
+                        env.fs.fail_reads[env.fs.rel(full)] = errno.EIO
+                        effective = True
+                        hit.append(idx)
+                        faults["open_returns_EIO"] += 1
+                        continue
                 apply_damage(full, d)
                 try:
                     dsgen.decode_shard(env.root, table[idx]["path"], st)
@@ -264,7 +277,7 @@ def reach(agg):
         if not p.get(name):
             need.append(f"probe {name} never hit")
     for name in ("shard_deleted", "shard_emptied", "shard_truncated",
-                 "shard_garbage"):
+                 "shard_garbage", "open_returns_EIO"):
         if not f.get(name):
             need.append(f"fault {name} never effective")
     return need
